@@ -43,4 +43,7 @@ func TestAll(t *testing.T) {
 	if Timeout() != -1 || Cancel() != 7 || CancelSelect() != 3 || AfterFunc() != 5 {
 		t.Fatal("timers / context")
 	}
+	if Misc(3) != 11 {
+		t.Fatal("Misc", Misc(3))
+	}
 }
